@@ -3,7 +3,7 @@
 # In the scratch worktree /tmp/wt/mine: (1) patch applies, (2) crate builds and the pinned baseline passes with it,
 # (3) the demo fails with the patch and passes without. On success copies to /verif/seeded/<id>/ with meta.json.
 src=$1; id=$2; prop=$3
-W=/tmp/wt/mine
+W=${VERIFY_WT:-/tmp/wt/mine}
 export CARGO_NET_OFFLINE=true CARGO_TARGET_DIR=$W/target
 cd $W || exit 2
 git checkout -q -- . ; rm -f tests/demo_seed_*.rs
